@@ -315,7 +315,7 @@ CHECKS["C19"] = dict(
 
 # extensions built while strengthening the checks against independently seeded changes (DESIGN.md §8)
 EXTRA = {
-    "C01": ("; J2O_Batching direct cases (axis operators on rank-3 operands, every axis) and J2O_Index (dynamic_slice / dynamic_update_slice / take / x[i] / roll / pad / Python slicing at the edges of the index domain) replayed on real exports; J2O_Fusion (reduce_sum fusions at their boundary: exponents around 2, same operand twice vs two operands; digitize / searchsorted / argmax on ties; exact integer semantics, 3 deviations rejected by TLC) replayed in three spellings and two dtypes",
+    "C01": ("; J2O_Batching direct cases (axis operators on rank-3 operands, every axis) and J2O_Index (dynamic_slice / dynamic_update_slice / take / x[i] / roll / pad / Python slicing at the edges of the index domain) replayed on real exports; J2O_Fusion (reduce_sum fusions at their boundary: exponents around 2, same operand twice vs two operands; digitize / searchsorted / argmax on ties; exact integer semantics, 3 deviations rejected by TLC) replayed in three spellings and two dtypes; J2O_Conv (window stride / input dilation / kernel dilation / padding along one axis, Conv vs ConvTranspose lowering, 3 deviations rejected) replayed in NCHW and NHWC",
             " J2O_Batching's direct cases give exact tensors for sum/max/argmax/cumsum/cummax/flip/sort along every axis of a rank-3 operand (every registered spelling, both dtypes) and ~45 further axis functions are compared with JAX eager; J2O_Index gives exact results for index-driven primitives over index classes < -N, -N..-1, 0..N-1, >= N (clamping, wrapping, the three take modes, negative padding, Python slicing): one export per template with the index as run-time input, specification = JAX = ORT."),
     "C02": ("; J2O_Vocab: the op-name sets the real passes consult are facts, every member instantiated generically inside Transpose / Reshape pairs through the real passes with ORT before/after; captured-value patterns (a value read from an If body nested 1 / 2 levels deep next to a foldable pair)",
             " The vocabularies of the guards (ELEMENTWISE_UNARY_OPS, ELEMENTWISE_BINARY_OPS, ALLOWED_ELEMWISE, UNARY_DATAFLOW_OPS) are read from the working tree; J2O_Vocab states which operator classes commute with a layout change and TLC checks every member; every member is instantiated from its ONNX schema (all axis attribute values, scalar / vector / full side operands) inside the pattern neighbourhoods. Reshape -> elementwise chain -> Reshape [-> Reshape] patterns added (HoistThroughReshape)."),
